@@ -246,7 +246,7 @@ def run(ctx):
         if n < 3:
             raise AnchorMissing("expected >= 3 value mutating handler steps (ValueLaneSet, ValueLaneSelectSet, ValueStoreSet), found %d" % n)
 
-    with ctx.rule("C01.R10", "T1+T7", "every frame is addressed with the lane it belongs to (the sender's lane name is set per frame, for the lane of that frame)", floor=15) as r:
+    with ctx.rule("C01.R10", "T1+T7", "every frame is addressed with the lane it belongs to (the sender's lane name is set per frame, for the lane of that frame)", floor=7) as r:
         uplinks.frame_lane_name(r, ctx)
 
     # a change is published only if the item it touched is collected as dirty on every path of run_handler, including the paths on which a
